@@ -30,14 +30,19 @@ def s_trnorm():
     return st.fixed_dictionaries({
         "kind": st.just("trnorm"), "T": gens.pose3(t_hi=6), "se": st.booleans(),
         "noise": noise, "pattern": st.lists(gens.fl(-1, 1), min_size=9, max_size=9),
-        "nvals": st.integers(1, 3)})
+        "nvals": st.integers(1, 3),
+        # where the noise sits: everywhere, one column, one row, one entry; and (rigid motions) also on the bottom row
+        "mask": st.sampled_from(["all", "all", "col0", "col1", "col2", "row0", "row2", "e00", "e01", "e12", "e21"]),
+        "rownoise": st.one_of(st.none(), st.none(), st.lists(gens.fl(-1, 1), min_size=4, max_size=4))})
 
 
 def s_trnorm2():
     noise = st.one_of(st.just(0.0), gens.logmag(-15, -2))
     return st.fixed_dictionaries({
         "kind": st.just("trnorm2"), "T": gens.pose2(t_hi=6), "se": st.booleans(),
-        "noise": noise, "pattern": st.lists(gens.fl(-1, 1), min_size=4, max_size=4), "nvals": st.integers(1, 3)})
+        "noise": noise, "pattern": st.lists(gens.fl(-1, 1), min_size=4, max_size=4), "nvals": st.integers(1, 3),
+        "mask": st.sampled_from(["all", "all", "col0", "col1", "row0", "e00", "e01", "e10", "e11"]),
+        "rownoise": st.one_of(st.none(), st.none(), st.lists(gens.fl(-1, 1), min_size=3, max_size=3))})
 
 
 def s_unitvec():
@@ -78,13 +83,32 @@ def check_case(case):
     return {"trnorm": _trnorm, "trnorm2": _trnorm2, "unitvec": _unitvec, "unitq": _unitq, "unittwist": _unittwist, "angdiff": _angdiff}[case["kind"]](case)
 
 
+def _masked(pattern, d, mask):
+    N = np.array(pattern, dtype=float).reshape(d, d)
+    if mask in (None, "all"):
+        return N
+    K = np.zeros((d, d))
+    if mask.startswith("col"):
+        K[:, int(mask[3]) % d] = 1.0
+    elif mask.startswith("row"):
+        K[int(mask[3]) % d, :] = 1.0
+    else:
+        K[int(mask[1]) % d, int(mask[2]) % d] = 1.0
+    N = N * K
+    if not np.any(N):
+        N = K * 0.7
+    return N
+
+
 def _trnorm(case):
     b = L.base
     T = refs.pose3_of(case["T"])
     se = case["se"]
     M = T.copy() if se else T[:3, :3].copy()
-    N = np.array(case["pattern"]).reshape(3, 3) * case["noise"]
+    N = _masked(case["pattern"], 3, case.get("mask")) * case["noise"]
     M[:3, :3] += N
+    if se and case.get("rownoise"):
+        M[3, :] += np.array(case["rownoise"], dtype=float) * case["noise"]      # a nearly valid matrix may be off in its bottom row too
     c = Checker("trnorm", noise=case["noise"], se=se)
     ok, R1 = c.lib("call", b.trnorm, M.copy())
     if not ok:
@@ -129,7 +153,9 @@ def _trnorm2(case):
     T = refs.pose2_of(case["T"])
     se = case["se"]
     M = T.copy() if se else T[:2, :2].copy()
-    M[:2, :2] += np.array(case["pattern"]).reshape(2, 2) * case["noise"]
+    M[:2, :2] += _masked(case["pattern"], 2, case.get("mask")) * case["noise"]
+    if se and case.get("rownoise"):
+        M[2, :] += np.array(case["rownoise"], dtype=float) * case["noise"]
     c = Checker("trnorm2", noise=case["noise"], se=se)
     ok, R1 = c.lib("call", b.trnorm2, M.copy())
     if not ok:
